@@ -103,8 +103,6 @@ Definition enc_outcome (o : outcome) : list N :=
   | OStop e => [12; e]
   | ORunPanics v => [13; v]
   | OCrash => [14]
-  | OCbPanic c => 16 :: N.of_nat (length c) ::
-                  flat_map (fun p => match p with (m, r) => [m; if r : bool then 1 else 0] end) c
   end.
 
 Definition enc_result (r : outcome * list event) : list N :=
@@ -122,17 +120,5 @@ Definition frames_case (s : list N) : option (list N) :=
 Definition gospec_case (s : list N) : option (list N) :=
   match parse_tree s with
   | Some f => match go_run (fsize f) f with Some r => Some (enc_result r) | None => None end
-  | None => None
-  end.
-
-(* gospec_case followed by the two finding-trigger flags of the run *)
-Definition gospec_flags_case (s : list N) : option (list N) :=
-  match parse_tree s with
-  | Some f =>
-      match go_run (fsize f) f with
-      | Some r => let fl := go_flags (fsize f) f in
-                  Some (enc_result r ++ [if fst fl then 1 else 0; if snd fl then 1 else 0])
-      | None => None
-      end
   | None => None
   end.
